@@ -368,6 +368,7 @@ def pThe (env : Env) : Nat → List Tok → Option (Expr × List Tok)
     match (match r with | .id u :: r1 => (dateIdx p u).map fun k => (k, r1) | _ => none) with
     | some (k, r1) => some (.the .special k [], r1)
     | none =>
+    if isObjectless p then some (theSimple p, r) else
     match r with
     | o :: r1 =>
       if o.kw "of" then
@@ -511,6 +512,7 @@ def pStmt (env : Env) : Nat → List Tok → Option (Stmt × List Tok)
           | none => none
         else none
       | _ => none
+    else if t.kw "put" && (eos r).isSome then (eos r).map fun r1 => (.call "put".toList [], r1)
     else if t.kw "put" then
       match pExpr env fe r with
       | some (v, []) => some (.call "put".toList [v], [])
